@@ -172,6 +172,15 @@ fn small_cap(thorough: bool) -> BoxedStrategy<usize> {
 }
 
 pub fn cfg_strategy(kind: Kind, p: &Profile) -> BoxedStrategy<Cfg> {
+    (cfg_strategy_inner(kind, p), 0u8..4)
+        .prop_map(|(mut c, perm)| {
+            c.perm = perm;
+            c
+        })
+        .boxed()
+}
+
+fn cfg_strategy_inner(kind: Kind, p: &Profile) -> BoxedStrategy<Cfg> {
     let hs = prop::sample::select(p.hashers.clone());
     let hs4 = (hs.clone(), hs.clone(), hs.clone(), hs.clone()).prop_map(|(a, b, c, d)| [a, b, c, d]);
     let th = p.thorough;
